@@ -346,6 +346,31 @@ class FixedChangeDetector(ChangeDetector):
         return ChangeDetector._format_sparse_output(cpts)
 
 
+class SupervisedChangeDetector(ChangeDetector):
+    """A user-defined *supervised* change detector: fitted with an annotation `y` (sparse format, column "ilocs") it reports the
+    annotated changepoints (as a detector tuned on labelled data would be steered by them); fitted without `y` it falls back
+    to the changepoints given at construction."""
+
+    _tags = {
+        "capability:missing_values": False,
+        "capability:multivariate": True,
+        "fit_is_empty": False,
+    }
+
+    def __init__(self, changepoints=None):
+        self.changepoints = changepoints
+        super().__init__()
+
+    def _fit(self, X, y=None):
+        self.n_fit_ = len(X)
+        self.cpts_ = [int(c) for c in (y["ilocs"].tolist() if y is not None else (self.changepoints or []))]
+        return self
+
+    def _predict(self, X):
+        n = len(X)
+        return ChangeDetector._format_sparse_output(sorted({c for c in self.cpts_ if 0 < c < n}))
+
+
 class IndexLabelChangeDetector(ChangeDetector):
     """A user-defined change detector that knows its changepoints as *index labels*: at fit time it reads the labels
     of the given positions from the training data's index (time stamps, cycle counters, ...), at predict time it looks
